@@ -686,4 +686,3 @@ func WorkloadIdentity(p *core.Program, r *core.Report, rule string) {
 	r.Check(keyHasKind || nameHasKind, rule, iw.Key()+": the pods generated for a workload are stored under a key that contains the workload's kind", p.Pos(keyPos), "",
 		"the pods generated for a workload are called <name>-<i> and stored under namespace/<name>-<i>: a Deployment and a StatefulSet (or any two kinds) with the same name, or a Pod resource called <name>-1, replace each other in the pods map, and the replaced workload silently disappears from the report")
 }
-
